@@ -8,12 +8,25 @@ import time
 from common import (HARNESS, REPLAYS, ToolError, build_harness, digest, load_known, log, sh,
                     tlc_model, tlc_trace, workdir, write_evidence)
 
-# property -> design-level model configurations (module, cfg) per tier
+# design-level model configurations: (module, cfg, actions that must have been taken)
+CLIENT_ACTIONS = ("SendRequest", "SendIndication", "Recv", "OnTimeout")
+M_REL = ("MC_StunClient.tla", "MC_StunClient_reliable.cfg", CLIENT_ACTIONS)
+M_UNREL = ("MC_StunClient.tla", "MC_StunClient_nomech.cfg", CLIENT_ACTIONS)
+M_ST = ("MC_StunClient.tla", "MC_StunClient_st.cfg", ("SendRequest", "Recv", "OnTimeout"))
+M_ST_REL = ("MC_StunClient.tla", "MC_StunClient_st_rel.cfg", ("SendRequest", "Recv", "OnTimeout"))
+M_LT = ("MC_CredLT.tla", "MC_CredLT.cfg", ("Send", "Next"))
+M_LT_RFC = ("MC_CredLT.tla", "MC_CredLT_rfc.cfg", ("Send", "Next"))
 MODELS = {
-    "quick": [("MC_StunClient.tla", "MC_StunClient_reliable.cfg"),
-              ("MC_StunClient.tla", "MC_StunClient_nomech.cfg")],
-    "thorough": [("MC_StunClient.tla", "MC_StunClient_reliable.cfg"),
-                 ("MC_StunClient.tla", "MC_StunClient_nomech.cfg")],
+    "C05": [M_REL, M_UNREL, M_ST_REL],
+    "C06": [M_REL, M_UNREL],
+    "C07": [M_ST_REL, M_ST],
+    "C08": [M_LT, M_LT_RFC],
+    "C10": [M_ST_REL, M_REL],
+    "C11": [M_REL, M_UNREL],
+    "C12": [M_REL, M_UNREL],
+    "C13": [M_ST_REL, M_LT],
+    "C15": [M_UNREL],
+    "C17": [M_REL, M_UNREL, M_ST_REL],
 }
 
 # property -> list of (profile, traces, steps) per tier
@@ -135,13 +148,12 @@ def match_known(prop, obs, info):
 def design_models(prop, tier, wd):
     states = trans = 0
     info = []
-    for module, cfg in MODELS[tier]:
+    for module, cfg, actions in MODELS[prop]:
         r = tlc_model(module, cfg, wd, workers=12, timeout=1500)
         if r["violated"]:
             raise ToolError("design model %s/%s violates %s - specification or monitor is wrong:\n%s"
                             % (module, cfg, r["violated"], r["out"][-3000:]))
-        never = [a for a in ("SendRequest", "SendIndication", "Recv", "OnTimeout")
-                 if r["coverage"].get(a, 0) == 0]
+        never = [a for a in actions if r["coverage"].get(a, 0) == 0]
         if never:
             raise ToolError("vacuous model run, actions never taken: %s" % never)
         states += r["distinct"]
@@ -154,7 +166,7 @@ def design_models(prop, tier, wd):
     return states, trans, info
 
 
-def run(prop, tier, seed, replay=None):
+def run(prop, tier, seed, replay=None, extra_cov=None):
     t0 = time.time()
     wd = workdir(prop)
     bindir = build_harness()
@@ -234,6 +246,7 @@ def run(prop, tier, seed, replay=None):
             "plan": [{"profile": p, "traces": n, "max_steps": s} for p, n, s in PLANS[prop][tier]],
             "known_findings_hit": sorted(set(known_hits)),
             "exhaustive": False,
+            **(extra_cov or {}),
         }, time.time() - t0, len(violations),
             ["TLC/SANY and the CommunityModules Json/IOUtils overrides",
              "harness observer (independent parser/encoder) and HMAC/CRC primitive crates, "
